@@ -834,7 +834,11 @@ impl TcpSession {
                 self.connection_attempt = 0;
                 self.set_back_connected(BackendConnectionStatus::Connected);
             }
-        } else if back_connected == BackendConnectionStatus::NotConnected {
+        } else if back_connected == BackendConnectionStatus::NotConnected
+            && !matches!(self.state, TcpStateMachine::ExpectProxyProtocol(_))
+        {
+            // the expect state owns no backend socket: connect once the header
+            // is parsed and the session has been upgraded to a pipe
             let connection_result = self.connect_to_backend(session.clone());
             if let Err(err) = &connection_result {
                 match err {
